@@ -43,6 +43,10 @@ def main(argv=None):
                             (' (' + ', '.join(st['helpers']) + ')')
                             if st['helpers'] else '', st['constants'],
                             st['copies'], st['temps']))
+        # E12: a remembered answer must be determined by its key
+        from . import memo
+        from .callgraph import CallGraph
+        memo.check_property(report, db, CallGraph(db), pid)
         mod.run(report, db, args.tier)
         from . import pathsum
         for fn, k in sorted(pathsum.RUNS.items()):
